@@ -335,6 +335,9 @@ func c07(r *vkit.Run) {
 			reqs = append(reqs, q)
 			sh := c07Shape(q)
 			r.CaseS(sh, q.Script != "" || q.Be != "ok" || q.Abandon || q.Host == "dead.c07.test")
+			if r.WantSample() && q.Script != "" && i%17 == 0 {
+				r.Sample(map[string]interface{}{"request": q, "shape": sh})
+			}
 		}
 		st := runBatch(reqs, 24)
 		for k, v := range st {
